@@ -16,6 +16,7 @@ CONSTANTS N,          \* number of qubits
           RotK,       \* set of even angle indices for RX RY RZ CRX CRY CRZ XX
           PhaseK,     \* set of angle indices for PHASE CPHASE
           MaxCtrl,    \* maximal number of controls
+          MinCtrl,    \* 0: whole alphabet; c > 0: only gates with at least c controls (multi-control sweep on wider registers)
           Export      \* BOOLEAN: print transitions
 
 \* angle-index sets offered to the configuration files (cfg files cannot write negative numbers)
@@ -40,7 +41,7 @@ CtrlSeqs(others) ==
 
 Pairs == { <<a, b>> : a \in Qubits, b \in Qubits } \ { <<a, a>> : a \in Qubits }
 
-Alphabet ==
+FullAlphabet ==
        { G(nm, <<t>>, <<>>, 0) : nm \in {"H", "X", "Y", "Z", "S", "T"}, t \in Qubits }
   \cup { G(nm, <<t>>, <<>>, k) : nm \in {"RX", "RY", "RZ"}, t \in Qubits, k \in RotK }
   \cup { G("PHASE", <<t>>, <<>>, k) : t \in Qubits, k \in PhaseK }
@@ -50,6 +51,8 @@ Alphabet ==
   \cup { G("XX", p, <<>>, k) : p \in Pairs, k \in RotK }
   \cup { G("SWAP", p, <<>>, 0) : p \in Pairs }
   \cup UNION { { G("CSWAP", p, c, 0) : c \in CtrlSeqs(Qubits \ {p[1], p[2]}) } : p \in Pairs }
+
+Alphabet == IF MinCtrl = 0 THEN FullAlphabet ELSE { g \in FullAlphabet : Len(g.c) >= MinCtrl }
 
 \* A fixed entangled state with pairwise distinct non-zero amplitudes' phases: a defect that is
 \* invisible on |0...0> (e.g. a wrong phase on the |1> branch, a swapped control) shows here.
